@@ -9,7 +9,7 @@ from harness import ashlib, fullstack
 from harness.ashlib import hx
 
 FAILS = ["error", "rstack_poweron", "silent", "lost_exc", "eof", "close"]
-POINTS = ["idle", "inflight", "awaiting", "queued", "resetting"]
+POINTS = ["idle", "inflight", "awaiting", "queued", "resetting", "abandoned"]
 
 
 def scenario(n, fail, point, attached, batched):
@@ -43,6 +43,15 @@ def scenario(n, fail, point, attached, batched):
             if point == "inflight":
                 w.ncp.silent = True  # the request is on the wire, unacknowledged
                 tasks.append(loop.create_task(call("c1", w.ezsp.getEui64())))
+                await asyncio.sleep(0.05)
+                if fail != "silent":
+                    w.ncp.silent = False
+            elif point == "abandoned":
+                # the request is on the wire, unacknowledged, and its caller gives up long before the link does
+                w.ncp.silent = True
+                tasks.append(loop.create_task(call("c1", w.ezsp.getEui64())))
+                await asyncio.sleep(4.0)
+                tasks[0].cancel()
                 await asyncio.sleep(0.05)
                 if fail != "silent":
                     w.ncp.silent = False
@@ -91,7 +100,7 @@ def scenario(n, fail, point, attached, batched):
                 if all(t.done() for t in tasks) and (fail != "silent" or not w.ezsp.is_ezsp_running or not attached):
                     break
                 await asyncio.sleep(1.0)
-            if fail == "silent" and w.ezsp.is_ezsp_running:
+            if fail == "silent" and w.ezsp.is_ezsp_running and point != "abandoned":
                 # silence is only noticed when something is sent: the next command (e.g. the watchdog's) finds out
                 t = loop.create_task(call("probe", w.ezsp.nop()))
                 tasks.append(t)
@@ -153,6 +162,8 @@ def oracle(fail, point, attached, o):
     if o["hung"]:
         return f"{fail} at '{point}': calls still pending after the failure: {o['hung']}"
     for tag, (res, dt) in o["results"].items():
+        if res == "cancelled":
+            continue
         if dt > o["bound"] + (o["t_fail"] if False else 0):
             return f"{fail} at '{point}': call {tag} took {dt:.2f}s, more than the command + link timeouts ({o['bound']:.1f}s)"
         if attached and res == "ok" and fail in ("lost_exc", "eof") and tag != "reset" and point != "idle":
@@ -214,7 +225,7 @@ def run(ctx):
         if i % 25 == 0:
             ctx.sample({"case": list(map(str, c)), "requests": len(o["requests"]), "results": {k: [v[0], round(v[1], 3)] for k, v in o.get("results", {}).items()}, "after": o.get("after")})
     ctx.cov["rule"] = ("failure kinds {ERROR frame, power-on RSTACK, NCP stops acknowledging, connection lost with error, EOF, deliberate close} x workload points {idle, request unacknowledged, "
-                       "acknowledged but unanswered, three commands queued, reset in progress} x {application attached, not attached} x {failure alone, batched with an ACK in one loop iteration}, "
+                       "acknowledged but unanswered, three commands queued, reset in progress, request unacknowledged and abandoned by its caller after 4 s (no later probe)} x {application attached, not attached} x {failure alone, batched with an ACK in one loop iteration}, "
                        "NCP version 8 (4, 7, 8, 13, 14 thorough): full real stack on the virtual clock")
     ctx.exhaustive = True
 
